@@ -89,3 +89,65 @@ func vhBuildersZero() {
 		vReach("generated")
 	}
 }
+
+// vhBuildersPartial: C20 for list entries and members that a hostile or
+// sloppy configuration leaves out or fills with nonsense (the schema does not
+// require most members): empty list elements, names without type, types
+// without name, empty and malformed OIDs, IPs with too few / non-numeric
+// octets, empty and undecodable !binary values, empty nested structures.
+// Building and signing returns (a configuration error or a certificate); a
+// Go panic is the violation. One symbolic byte is appended to string members
+// where a value is present, so neighbours of the listed values are covered.
+func vhBuildersPartial() {
+	vClockFixed(1709640000)
+	x := vAsciiString("x", 1)
+	cases := []AnyExtension{
+		{SubjectAltName: &SubjectAltName{Content: []SubjAltNameComponent{{}}}},
+		{SubjectAltName: &SubjectAltName{Content: []SubjAltNameComponent{{Name: "www" + x}}}},
+		{SubjectAltName: &SubjectAltName{Content: []SubjAltNameComponent{{Type: "dns"}}}},
+		{SubjectAltName: &SubjectAltName{Content: []SubjAltNameComponent{{Type: "ip"}}}},
+		{SubjectAltName: &SubjectAltName{Content: []SubjAltNameComponent{{Type: "ip", Name: "1.2." + x}}}},
+		{SubjectAltName: &SubjectAltName{Content: []SubjAltNameComponent{{Type: "ip", Name: "1.2.3.4.5"}}}},
+		{SubjectAltName: &SubjectAltName{Content: []SubjAltNameComponent{{Type: "ip", Name: "a.b.c." + x}}}},
+		{SubjectAltName: &SubjectAltName{Content: []SubjAltNameComponent{{Type: "url", Name: "u" + x}}}},
+		{SubjectAltName: &SubjectAltName{Content: []SubjAltNameComponent{{Type: "dns", Name: "ok"}, {}}}},
+		{AuthInfoAccess: &AuthInfoAccess{Content: []SingleAuthInfo{{}}}},
+		{AuthInfoAccess: &AuthInfoAccess{Content: []SingleAuthInfo{{Ocsp: "http://a"}, {}}}},
+		{ExtKeyUsage: &ExtKeyUsage{Content: []string{""}}},
+		{ExtKeyUsage: &ExtKeyUsage{Content: []string{"1"}}},
+		{ExtKeyUsage: &ExtKeyUsage{Content: []string{"1." + x}}},
+		{ExtKeyUsage: &ExtKeyUsage{Content: []string{ServerAuth, "nonsense" + x}}},
+		{KeyUsage: &KeyUsage{Content: []string{""}}},
+		{KeyUsage: &KeyUsage{Content: []string{DigitalSignature, "nonsense" + x}}},
+		{CertPolicies: &CertPolicies{Content: []CertPolicy{{}}}},
+		{CertPolicies: &CertPolicies{Content: []CertPolicy{{Oid: "1.2.3", Qualifiers: []PolicyQualifiers{{}}}}}},
+		{CertPolicies: &CertPolicies{Content: []CertPolicy{{Oid: "1.2.3", Qualifiers: []PolicyQualifiers{{UserNotice: &UserNotice{}}}}}}},
+		{CertPolicies: &CertPolicies{Content: []CertPolicy{{Oid: "1.2.3", Qualifiers: []PolicyQualifiers{{UserNotice: &UserNotice{Numbers: []int{1}}}}}}}},
+		{CertPolicies: &CertPolicies{Content: []CertPolicy{{Oid: "1." + x}}}},
+		{BasicConstraints: &BasicConstraints{Content: &BasicConstraintsObj{}}},
+		{AuthKeyId: &AuthKeyId{Content: AuthKeyIdContent{Id: binaryPrefix}}},
+		{AuthKeyId: &AuthKeyId{Content: AuthKeyIdContent{Id: binaryPrefix + "@@@" + x}}},
+		{AuthKeyId: &AuthKeyId{Content: AuthKeyIdContent{Id: "nonsense" + x}}},
+		{SubjectKeyIdentifier: &SubjectKeyIdentifier{Content: binaryPrefix + "%%" + x}},
+		{SubjectKeyIdentifier: &SubjectKeyIdentifier{Content: "nonsense" + x}},
+		{AdmissionExtension: &AdmissionExtension{Content: &Admission{}}},
+		{AdmissionExtension: &AdmissionExtension{Content: &Admission{Admissions: []SingleAdmission{{}}}}},
+		{AdmissionExtension: &AdmissionExtension{Content: &Admission{Admissions: []SingleAdmission{{ProfessionInfos: []ProfessionInfo{{}}}}}}},
+		{AdmissionExtension: &AdmissionExtension{Content: &Admission{AdmissionAuthority: GeneralName{Name: "n" + x}, Admissions: []SingleAdmission{{AdmissionAuthority: GeneralName{Type: "ip", Name: "1.2"}}}}}},
+		{AdmissionExtension: &AdmissionExtension{Content: &Admission{AdmissionAuthority: GeneralName{Type: "dns"}, Admissions: []SingleAdmission{{NamingAuthority: NamingAuthority{Oid: "1"}}}}}},
+		{AdmissionExtension: &AdmissionExtension{Content: &Admission{Admissions: []SingleAdmission{{ProfessionInfos: []ProfessionInfo{{ProfessionOids: []string{""}, AddProfessionInfo: binaryPrefix + "@" + x}}}}}}},
+		{CustomExtension: &CustomExtension{}},
+		{CustomExtension: &CustomExtension{OidStr: "1"}},
+		{CustomExtension: &CustomExtension{OidStr: "1.2.3", Raw: binaryPrefix + "@@" + x}},
+		{CustomExtension: &CustomExtension{OidStr: "1.2.3", Raw: "nonsense" + x}},
+		{OcspNoCheckExtension: &OcspNoCheckExtension{Raw: "nonsense" + x}},
+	}
+	k := vChoose("case", len(cases))
+	cfg := CertConfig{Subject: "CN=x", SerialNumber: 4711, Extensions: []AnyExtension{cases[k]}}
+	_, _, err := vGenerate(cfg)
+	if err != nil {
+		vReach("error")
+	} else {
+		vReach("generated")
+	}
+}
